@@ -533,8 +533,12 @@ def ite(c, a, b):
         return MU(m, z3.If(c, ac, bc))
     if isinstance(a, SV) and isinstance(b, SV) and a.t == b.t:
         if z3.eq(a.z, b.z):
-            return a
-        return SV(a.t, z3.If(c, a.z, b.z))
+            if a.shared or not b.shared:
+                return a
+            return b
+        r = SV(a.t, z3.If(c, a.z, b.z))
+        r.shared = a.shared or b.shared       # owned on one branch = must not be mutated in place after the join
+        return r
     if isinstance(a, (MFn, MCls, MNS, MDict)) or isinstance(b, (MFn, MCls, MNS, MDict)):
         return None
     if isinstance(a, MTup) and isinstance(b, MTup) and len(a.items) == len(b.items):
